@@ -1,0 +1,15 @@
+//go:build verif
+
+package handlers
+
+import (
+	"bytes"
+
+	"Havoc/pkg/agent"
+)
+
+// VerifParseAgentRequest exposes the unexported agent-facing entry point to the
+// verification harness (build tag verif only; no behaviour of its own).
+func VerifParseAgentRequest(Teamserver agent.TeamServer, Body []byte, ExternalIP string) (bytes.Buffer, bool) {
+	return parseAgentRequest(Teamserver, Body, ExternalIP)
+}
